@@ -25,7 +25,7 @@ ASSUMPTIONS = [
     "the first re-read l1 is the reference: precision lost by the chosen fmt in the first write is not drift",
     "inputs lasio cannot read, or whose first write() raises, are outside 'any input that lasio can read and then write' and are counted by reason",
 ]
-REQUIRED = ["histories_completed", "corpus_histories_completed", "generated_histories_completed", "mutated_histories_completed", "cycle_comparisons", "histories_with_declared_version_1.0", "histories_with_declared_version_2.1", "histories_with_declared_version_3.0"]
+REQUIRED = ["histories_completed", "corpus_histories_completed", "generated_histories_completed", "mutated_histories_completed", "cycle_comparisons", "histories_with_declared_version_1.0", "histories_with_declared_version_2.1", "histories_with_declared_version_3.0", "inputs_with_wide_tables"]
 SOFT_DEADLINE = {"quick": 100, "thorough": 1500}
 LEVEL_TEXT = "Exploration of load/save histories: every cycle's result is compared with the previous one and with drift detectors."
 LEVEL_NOTE = "Trusts the canonical snapshot; inputs outside corpus/generators/mutations are not covered."
@@ -33,7 +33,7 @@ TECHNIQUE = "runtime monitoring: history checker over recorded read/write cycles
 
 OPTSETS = [{}, {"version": 1.2}, {"version": 2, "wrap": True}, {"fmt": "%.2f"}, {"wrap": True, "data_width": 40, "fmt": "%.3f"},
            {"mnemonics_header": True, "data_section_header": "~A"}, {"version": 1.2, "wrap": False, "len_numeric_field": -1}]
-MUTATIONS = ["none", "dup_curve", "blank_curve", "dup_param", "unit_point1in", "empty_values", "long_fields", "blank_param", "empty_step", "dup_null", "vers_1.0", "vers_2.1", "vers_3.0", "vers_1.2"]
+MUTATIONS = ["none", "dup_curve", "blank_curve", "dup_param", "unit_point1in", "empty_values", "long_fields", "blank_param", "empty_step", "dup_null", "vers_1.0", "vers_2.1", "vers_3.0", "vers_1.2", "wrap_Yes", "wrap_yes", "wrap_No"]
 
 
 def corpus():
@@ -54,6 +54,12 @@ def grid(tier):
         yield {"input": "gen", "seed": 1000 + k, "mutation": "dup_null", "opts": [1, 6][k % 2]}
     for k, v in enumerate(["vers_1.0", "vers_1.2", "vers_2.1", "vers_3.0"] * 6):
         yield {"input": "gen", "seed": 2000 + k, "mutation": v, "opts": [0, 3, 5, 4][k % 4]}      # option sets that leave version=None
+    k = 0
+    for wide in (6, 13, 20, 27, 34):                  # 7, 14, 21, 28, 35 curves: multiples of the default line capacity
+        for mut in ("none", "wrap_Yes", "wrap_yes", "wrap_No"):
+            for oi in (0, 3, 5):                        # option sets that leave wrap=None
+                k += 1
+                yield {"input": "gen", "seed": 4000 + k, "mutation": mut, "opts": oi, "wide": wide}
     for k in range(60 if tier == "quick" else 400):
         yield {"input": "gen", "seed": k, "mutation": "none", "opts": k % len(OPTSETS)}
 
@@ -64,7 +70,10 @@ def n_random(tier):
 
 def random_case(rng, tier):
     if rng.random() < 0.5:
-        return {"input": "gen", "seed": rng.randrange(10 ** 9), "mutation": rng.choice(["none", "none", "none", "vers_1.0", "vers_2.1", "vers_3.0"]), "opts": rng.randrange(len(OPTSETS))}
+        c = {"input": "gen", "seed": rng.randrange(10 ** 9), "mutation": rng.choice(["none", "none", "none", "vers_1.0", "vers_2.1", "vers_3.0", "wrap_Yes", "wrap_yes"]), "opts": rng.randrange(len(OPTSETS))}
+        if rng.random() < 0.3:
+            c["wide"] = rng.choice([6, 13, 20, 27, 34, 41])
+        return c
     return {"input": rng.choice(corpus()), "mutation": rng.choice(MUTATIONS), "opts": rng.randrange(len(OPTSETS))}
 
 
@@ -109,6 +118,9 @@ def mutate(lasio, las, mutation):
     elif mutation.startswith("vers_"):
         # every version number defaults.ORDER_DEFINITIONS tabulates, declared by the object itself (write(version=None) keeps it)
         las.version["VERS"].value = float(mutation[5:])
+    elif mutation.startswith("wrap_"):
+        # the object's own WRAP item in another spelling (write(wrap=None) decides from it, read() interprets it)
+        las.version["WRAP"].value = mutation[5:]
     elif mutation == "long_fields":
         las.well.append(lasio.HeaderItem("LONGMNEMONIC_LONGMNEMONIC_X", "averyveryverylongunit", "v" * 120, "d " * 80))
     return las
@@ -126,7 +138,12 @@ def run_case(case, ctx):
     try:
         if case["input"] == "gen":
             import random
-            las = lasobj.build(lasio, lasobj.rand_spec(random.Random(case["seed"])))
+            spec = lasobj.rand_spec(random.Random(case["seed"]))
+            if case.get("wide"):
+                nrows = len(spec["curves"][0][4])
+                spec["curves"] = spec["curves"][:1] + [["W%d" % j, "u", "", "wide %d" % j, [round(100.0 * j + i + 0.25, 2) for i in range(nrows)]] for j in range(case["wide"])]
+                ctx.count("inputs_with_wide_tables")
+            las = lasobj.build(lasio, spec)
             las = mutate(lasio, las, case["mutation"])
         else:
             las = lasio.read(os.path.join(env.REPO, case["input"]))
